@@ -1306,3 +1306,346 @@ Example m04d_hypothesis_satisfiable :
   going_keys_nodup x_del_case = true /\
   map ev_key (members (set_obs_s x_del_case (SetCorr.model_run x_del_case))) = [x_key 1 1].
 Proof. vm_compute. split; reflexivity. Qed.
+
+(** ** m03d / m06d: gate, relay, ownership over delegated phases *)
+Lemma split_app_cases {A} (a b : list A) : forall l1 x l2, a ++ b = l1 ++ x :: l2 ->
+  (exists l1', a = l1 ++ x :: l1' /\ l2 = l1' ++ b) \/ (exists l2', l1 = a ++ l2' /\ b = l2' ++ x :: l2).
+Proof.
+  induction a as [|y a IH]; intros l1 x l2 H; cbn in H.
+  - right. exists l1. auto.
+  - destruct l1 as [|z l1]; cbn in H; injection H as -> H.
+    + left. exists a. split; [reflexivity|now symmetry].
+    + destruct (IH _ _ _ H) as [(l1' & -> & ->)|(l2' & -> & ->)]; [left; exists l1'; auto|right; exists l2'; auto].
+Qed.
+
+Lemma single_split {A} (a x : A) l l2 : [a] = l ++ x :: l2 -> l = [] /\ x = a /\ l2 = [].
+Proof. destruct l as [|b l]; cbn; intros H; injection H as -> H; [auto|destruct l; discriminate]. Qed.
+
+(** the requests before the status request that ends a pass which reached the loop *)
+Definition loop_prefix (mem1 : oset) (sw2 : sworld) (pre pevs : list sev) (rem : list (N * N)) (pr : mres) : list sev :=
+  match pr with
+  | MOk _ _ => pre ++ pevs ++ paused_reads (sw_phases sw2) (set_remotes mem1 rem)
+  | _ => pre ++ pevs
+  end.
+
+Lemma after_loop2_meta_pos force mem0 mem1 sw1 sw2 prev pre pevs rem pr evs r l1 ms l2 :
+  reconcile_phases_m force sw1 mem1 (as_owner mem1) prev (os_phases mem1) [] (os_remotes mem1) = (sw2, pevs, rem, pr) ->
+  Forall (keeps2 mem0) pre -> after_loop2 mem1 sw2 pre pevs rem pr evs r ->
+  evs = l1 ++ SMeta ms :: l2 ->
+  keeps2 mem0 (SMeta ms) \/
+  exists f ok, tail_status mem1 sw2 rem pr = Some f /\ SMeta ms = f ok /\ l2 = [] /\ l1 = loop_prefix mem1 sw2 pre pevs rem pr.
+Proof.
+  intros Hrp Hpre Hal He. rewrite Forall_forall in Hpre.
+  assert (Hcase : forall tail, evs = pre ++ pevs ++ tail ->
+            keeps2 mem0 (SMeta ms) \/ exists t1, tail = t1 ++ SMeta ms :: l2 /\ l1 = pre ++ pevs ++ t1).
+  { intros tail Hev. rewrite Hev in He. destruct (split_app_cases _ _ _ _ _ He) as [(l1' & Hp & _)|(l2' & -> & Hb)].
+    - left. apply Hpre. rewrite Hp. apply in_or_app. right. now left.
+    - destruct (split_app_cases _ _ _ _ _ Hb) as [(l1' & Hp & _)|(t1 & -> & Ht)].
+      + exfalso. eapply (rpm_no_meta force); [exact Hrp|]. rewrite Hp. apply in_or_app. right. now left.
+      + right. exists t1. split; [exact Ht|reflexivity]. }
+  unfold after_loop2 in Hal. unfold tail_status, loop_prefix. destruct pr as [e| | |ctrlof failed].
+  - destruct (is_collision e).
+    + destruct Hal as (ok & Hev & _). destruct (Hcase _ Hev) as [Hk|(t1 & Ht & ->)]; [now left|right].
+      destruct (single_split _ _ _ _ Ht) as (-> & Hx & ->). rewrite app_nil_r. eauto 6.
+    + destruct Hal as [Hev _]. rewrite <- (app_nil_r pevs) in Hev. destruct (Hcase _ Hev) as [Hk|(t1 & Ht & _)]; [now left|destruct t1; discriminate].
+  - destruct Hal as [Hev _]. rewrite <- (app_nil_r pevs) in Hev. destruct (Hcase _ Hev) as [Hk|(t1 & Ht & _)]; [now left|destruct t1; discriminate].
+  - destruct Hal as (ok & Hev & _). destruct (Hcase _ Hev) as [Hk|(t1 & Ht & ->)]; [now left|right].
+    destruct (single_split _ _ _ _ Ht) as (-> & Hx & ->). rewrite app_nil_r. eauto 6.
+  - destruct Hal as (ok & Hev & _). destruct (Hcase _ Hev) as [Hk|(t1 & Ht & ->)]; [now left|right].
+    destruct (split_app_cases _ _ _ _ _ Ht) as [(l1' & Hp & _)|(t2 & -> & Hs)].
+    + exfalso. eapply gets_no_meta; [apply paused_reads_gets|]. rewrite Hp. apply in_or_app. right. now left.
+    + destruct (single_split _ _ _ _ Hs) as (-> & Hx & ->). rewrite app_nil_r. eauto 6.
+Qed.
+
+Lemma stopped2_meta_pos sw mem0 sw' evs l1 ms l2 : stopped2 sw mem0 sw' evs -> evs = l1 ++ SMeta ms :: l2 -> keeps2 mem0 (SMeta ms).
+Proof. intros Hs He. eapply stopped2_meta; [exact Hs|]. rewrite He. apply in_or_app. right. now left. Qed.
+
+Lemma in_with_prefix {A} (l : list A) : forall p b x, In (b, x) (C15Corr.with_prefix p l) -> exists l1 l2, l = l1 ++ x :: l2 /\ b = p ++ l1.
+Proof.
+  induction l as [|a l IH]; intros p b x H; [contradiction|]. cbn in H. destruct H as [H|H].
+  - injection H as <- <-. exists [], l. now rewrite app_nil_r.
+  - destruct (IH _ _ _ H) as (l1 & l2 & -> & ->). exists (a :: l1), l2. split; [reflexivity|now rewrite <- app_assoc].
+Qed.
+
+Lemma c15_statuses_forall (o : C15Corr.dobs) (P : list sev * (list cond * list okey) -> bool) :
+  (forall l1 rv cs co rm fph ok l2, C15Corr.ds_events o = l1 ++ SMeta (MStatus rv cs co rm fph ok) :: l2 -> P (l1, (cs, co)) = true) ->
+  forallb P (C15Corr.statuses o) = true.
+Proof.
+  intros H. apply forallb_forall. intros st Hst. unfold C15Corr.statuses in Hst. apply in_flat_map in Hst.
+  destruct Hst as ([b x] & Hin & Hx). cbn [fst snd] in Hx. destruct x as [y|[a o0|rv cs co rm fph ok]|y]; try contradiction.
+  destruct Hx as [<-|[]]. destruct (in_with_prefix _ _ _ _ Hin) as (l1 & l2 & He & ->). eapply H. exact He.
+Qed.
+
+(** What the final status request of a completed loop can rely on: every delegated phase's phase object, as last seen
+    before the request, is the stored one - Available for its generation, controlled by the ObjectSet. *)
+Lemma completed_loop_seen force m sw1 sw2 mem1 pevs rem ctrlof pre :
+  same_spec mem1 m -> Forall (keeps2 m) pre ->
+  reconcile_phases_m force sw1 mem1 (as_owner mem1) (lookup_prev (sw_sets sw1) mem1) (os_phases mem1) [] (os_remotes mem1) = (sw2, pevs, rem, MOk ctrlof None) ->
+  dup_count [] (map (spec_key mem1) (all_objects mem1)) = O ->
+  forall q, In q (C15Corr.delegated m) ->
+    exists cur, C15Corr.last_seen (C15Corr.join m q) (loop_prefix mem1 sw2 pre pevs rem (MOk ctrlof None)) None = Some (Some cur) /\
+                find_phase (sw_phases sw2) (phase_kind mem1) (oi_ns (os_id mem1)) (pobj_name mem1 q) = Some cur /\
+                avail_current cur /\ controlled_by_uid (op_owners cur) (oi_uid (os_id m)) = true.
+Proof.
+  intros Hs Hpre Hrp Hdup q Hq. pose proof Hs as (Hid & Hphs & _).
+  unfold C15Corr.delegated in Hq. apply filter_In in Hq. destruct Hq as [Hq Hcq]. rewrite <- Hphs in Hq.
+  pose proof (dup_zero_nodup _ Hdup) as Hnd1.
+  destruct (rpm_passed force mem1 _ _ _ _ _ _ _ _ _ _ _ Hrp Hnd1) as (ppre & ppost & Hsplit & Hpassed & -> & _ & Hread).
+  rewrite app_nil_r in Hsplit, Hread. subst ppre.
+  pose proof (Hpassed q Hq) as Hpq. unfold passed in Hpq. rewrite Hcq in Hpq. destruct Hpq as (cur & Hcur & Hav & Hown & _).
+  exists cur. unfold phase_obj_of in Hcur. split; [|split; [exact Hcur|split; [exact Hav|now rewrite <- Hid]]].
+  unfold loop_prefix.
+  assert (Hc : coh mem1 (sw_phases sw2) (pre ++ pevs ++ paused_reads (sw_phases sw2) (set_remotes mem1 rem))).
+  { rewrite app_assoc. unfold paused_reads. change (phase_kind (set_remotes mem1 rem)) with (phase_kind mem1).
+    change (oi_ns (os_id (set_remotes mem1 rem))) with (oi_ns (os_id mem1)). apply coh_app_reads.
+    eapply coh_rpm; [exact Hrp|]. eapply coh_keeps2; eauto. }
+  specialize (Hc (C15Corr.join m q)).
+  assert (Hr : read_in (pre ++ pevs ++ paused_reads (sw_phases sw2) (set_remotes mem1 rem)) (C15Corr.join m q)).
+  { apply read_in_app_r. apply read_in_app_l. specialize (Hread q Hq Hcq). unfold pobj_name in Hread. now rewrite Hid in Hread. }
+  pose proof (last_seen_read _ _ Hr None) as Hne.
+  destruct (C15Corr.last_seen (C15Corr.join m q) _ None) as [x|]; [|contradiction]. subst x.
+  unfold pobj_name in Hcur. unfold C15Corr.join. now rewrite <- Hid, Hcur.
+Qed.
+
+Lemma keepish_relay m cs fph cd (X : bool) : keepish m cs fph -> find_cond cs CAvailable = Some cd ->
+  negb (cstatus_eqb (cd_status cd) STrue) || option_eqb cond_eqb (find_cond (os_conds m) CAvailable) (Some cd) || X = true.
+Proof.
+  intros (_ & Ha & _) Hcd. destruct Ha as [Ha|(cd' & Ha & Hf)].
+  - rewrite <- Ha, Hcd. cbn. rewrite cond_eqb_refl'. now rewrite orb_true_r.
+  - rewrite Hcd in Ha. injection Ha as <-. now rewrite Hf.
+Qed.
+
+(** the common shape of [m_relay] and [m_own] *)
+Lemma relay_clause_sound (c : scase) (Q : phase -> list sev -> bool) m sw e r :
+  find_set (sc_sets c) (sc_kind c) (sc_ns c) (sc_name c) = Some m -> is_active m ->
+  (forall mem1 sw1 sw2 pevs rem ctrlof pre,
+     same_spec mem1 m -> sw_phases sw1 = sc_phases c -> Forall (keeps2 m) pre ->
+     reconcile_phases_m (sc_force c) sw1 mem1 (as_owner mem1) (lookup_prev (sw_sets sw1) mem1) (os_phases mem1) [] (os_remotes mem1) = (sw2, pevs, rem, MOk ctrlof None) ->
+     dup_count [] (map (spec_key mem1) (all_objects mem1)) = O ->
+     forall q, In q (C15Corr.delegated m) -> Q q (loop_prefix mem1 sw2 pre pevs rem (MOk ctrlof None)) = true) ->
+  SetCorr.model_run c = (sw, e, r) ->
+  forallb (fun st : list sev * (list cond * list okey) => let '(before, (cs, _)) := st in
+     match find_cond cs CAvailable with
+     | Some cd => negb (cstatus_eqb (cd_status cd) STrue) || option_eqb cond_eqb (find_cond (os_conds m) CAvailable) (Some cd) ||
+                  forallb (fun ph => Q ph before) (C15Corr.delegated m)
+     | None => true end) (C15Corr.statuses (as_dobs (set_obs_s c (sw, e, r)))) = true.
+Proof.
+  intros Ef Hact HQ E. apply c15_statuses_forall. cbn [as_dobs C15Corr.ds_events set_obs_s sc_events].
+  intros l1 rv cs co rm fph ok l2 He. destruct (find_cond cs CAvailable) as [cd|] eqn:Hcd; [|reflexivity].
+  assert (Ef' : find_set (sw_sets (sc_world c)) (sc_kind c) (sc_ns c) (sc_name c) = Some m) by exact Ef.
+  unfold SetCorr.model_run in E.
+  destruct (objectset_pass_active2 (sc_force c) (sc_world c) _ _ _ m sw e r Ef' Hact E) as [Hs|Hr].
+  { eapply keepish_relay; [|exact Hcd]. eapply keeps2_keepish. eapply stopped2_meta_pos; eauto. }
+  destruct Hr as (mem1 & sw1 & sw2 & pevs & rem & pr & pre & Hs & _ & Hph1 & _ & _ & _ & Hdup & Hrp & _ & _ & _ & Hpre & Hal).
+  pose proof Hs as (_ & _ & _ & _ & _ & Hconds & _).
+  destruct (after_loop2_meta_pos _ _ _ _ _ _ _ _ _ _ _ _ _ _ _ Hrp Hpre Hal He) as [Hk2|(f & ok' & Hf & Hx & _ & Hl1)].
+  { eapply keepish_relay; [|exact Hcd]. eapply keeps2_keepish; eauto. }
+  unfold tail_status in Hf. destruct pr as [e0| | |ctrlof failed].
+  - destruct (is_collision e0); [|discriminate]. injection Hf as <-. unfold status_ev, status_ev_f in Hx.
+    remember (fail_mem _ _) as fm eqn:Efm in Hx. injection Hx as _ -> _ _ -> _. subst fm.
+    eapply keepish_relay; [|exact Hcd]. now apply fail_mem_keepish.
+  - discriminate.
+  - injection Hf as <-. unfold status_ev, status_ev_f in Hx.
+    remember (fail_mem _ _) as fm eqn:Efm in Hx. injection Hx as _ -> _ _ -> _. subst fm.
+    eapply keepish_relay; [|exact Hcd]. now apply fail_mem_keepish.
+  - injection Hf as <-. unfold status_ev_f in Hx.
+    remember (final_status _ _ _ _) as fs eqn:Efs in Hx. injection Hx as _ -> _ _ _ _. subst fs.
+    rewrite final_status_available_eq in Hcd. injection Hcd as <-. destruct failed as [nf|]; [reflexivity|].
+    cbn [cd_status mk_cond cstatus_eqb negb orb]. apply orb_true_iff. right.
+    apply forallb_forall. intros q Hq. rewrite Hl1. eapply HQ; eauto.
+Qed.
+
+Theorem m_relay_sound (c : scase) : C15Corr.m_relay (as_dobs (set_obs_s c (SetCorr.model_run c))) = true.
+Proof.
+  unfold C15Corr.m_relay. destruct (SetCorr.model_run c) as [[sw e] r] eqn:E.
+  cbn [as_dobs C15Corr.ds_step C15Corr.ds_pre_set set_obs_s sc_sets sc_kind sc_ns sc_name].
+  destruct (find_set (sc_sets c) (sc_kind c) (sc_ns c) (sc_name c)) as [m|] eqn:Ef; [|reflexivity].
+  change (C15Corr.is_activeb m) with (is_activeb m).
+  destruct (is_activeb m) eqn:Ha; [|reflexivity]. cbn [negb orb].
+  apply (relay_clause_sound c (fun ph b => C15Corr.seen_available (C15Corr.join m ph) b) m sw e r Ef (is_activeb_spec m Ha)); [|exact E].
+  intros mem1 sw1 sw2 pevs rem ctrlof pre Hs _ Hpre Hrp Hdup q Hq.
+  destruct (completed_loop_seen _ _ _ _ _ _ _ _ _ Hs Hpre Hrp Hdup q Hq) as (cur & Hls & _ & Hav & _).
+  unfold C15Corr.seen_available. rewrite Hls. now apply avail_current_b.
+Qed.
+
+(** *** The gate *)
+Definition gate_check (s : oset) (pe : list sev * sev) : bool :=
+  let '(before, e) := pe in
+  match C15Corr.phase_idx s (os_phases s) e O with
+  | Some j => forallb (fun ph => negb (ph_class ph) || C15Corr.seen_available (C15Corr.join s ph) before) (firstn j (os_phases s))
+  | None => match e with SMember _ => false | SPhase (PCreate _ _) | SPhase (PPause _ _ _) => false | _ => true end
+  end.
+
+Definition earlier_avail (s : oset) (b : list sev) (done : list phase) : Prop :=
+  forall q, In q done -> ph_class q = true -> C15Corr.seen_available (C15Corr.join s q) b = true.
+
+Lemma gate_check_quiet s b e : (forall q, hitb s q e = false) ->
+  match e with SMember _ => False | SPhase (PCreate _ _) | SPhase (PPause _ _ _) => False | _ => True end -> gate_check s (b, e) = true.
+Proof.
+  intros Hno He. unfold gate_check. rewrite phase_idx_none by (intros; apply Hno).
+  destruct e as [x|ms|p]; [contradiction|reflexivity|destruct p; try reflexivity; contradiction].
+Qed.
+
+Lemma gate_check_get s b n r : gate_check s (b, SPhase (PGet n r)) = true.
+Proof. apply gate_check_quiet; [reflexivity|exact I]. Qed.
+Lemma gate_check_meta s b ms : gate_check s (b, SMeta ms) = true.
+Proof. apply gate_check_quiet; [reflexivity|exact I]. Qed.
+
+Lemma firstn_le_app {A} (l1 l2 : list A) j x : (j <= length l1)%nat -> In x (firstn j (l1 ++ l2)) -> In x l1.
+Proof.
+  intros Hle Hin. rewrite firstn_app in Hin. replace (j - length l1)%nat with O in Hin by lia. cbn in Hin. rewrite app_nil_r in Hin.
+  rewrite <- (firstn_skipn j l1). apply in_or_app. now left.
+Qed.
+
+Lemma gate_check_hit s b e done ph rest :
+  os_phases s = done ++ ph :: rest -> hitb s ph e = true -> earlier_avail s b done -> gate_check s (b, e) = true.
+Proof.
+  intros Hsplit Hhit Hea. unfold gate_check. rewrite Hsplit.
+  destruct (phase_idx_le s ph rest e done O Hhit) as (j & -> & Hle). cbn [plus].
+  apply forallb_forall. intros q Hq. apply (firstn_le_app _ _ _ _ Hle) in Hq.
+  destruct (ph_class q) eqn:Ecq; [|reflexivity]. cbn. now apply Hea.
+Qed.
+
+Lemma map_member_split (e' : list ev) : forall l1 x l2, map SMember e' = l1 ++ x :: l2 ->
+  exists y l1', x = SMember y /\ In y e' /\ l1 = map SMember l1'.
+Proof.
+  induction e' as [|a e' IH]; intros l1 x l2 Hl; [destruct l1; discriminate|].
+  destruct l1 as [|b l1]; cbn in Hl; injection Hl as <- Hl.
+  - exists a, []. split; [reflexivity|]. split; [now left|reflexivity].
+  - destruct (IH _ _ _ Hl) as (y & l1' & -> & Hy & ->). exists y, (a :: l1'). split; [reflexivity|]. split; [now right|reflexivity].
+Qed.
+
+Lemma remote_reconcile_trace sw s ph rem sw1 e1 rem1 r :
+  remote_reconcile sw s ph rem = (sw1, e1, rem1, r) ->
+  (exists st, e1 = [SPhase (PGet (pobj_name s ph) None); SPhase (PCreate (pobj_name s ph) (Some st))]) \/
+  (exists cur, e1 = [SPhase (PGet (pobj_name s ph) (Some cur))]) \/
+  (exists cur pd cur', e1 = [SPhase (PGet (pobj_name s ph) (Some cur)); SPhase (PPause (pobj_name s ph) pd (Some cur'))]).
+Proof.
+  unfold remote_reconcile, pobj_name. cbn [desired_phase op_id oi_kind oi_ns oi_name op_paused].
+  destruct (find_phase _ _ _ _) as [cur|]; [|intros H; injection H as _ <- _ _; left; eauto].
+  destruct (negb _); [intros H; injection H as _ <- _ _; right; left; eauto|].
+  destruct (Bool.eqb _ _); intros H; injection H as _ <- _ _; right; [left|right]; eauto.
+Qed.
+
+Lemma rpm_gate_trace force s prev : forall phs sw acc rem sw' evs rem' r done before,
+  reconcile_phases_m force sw s (as_owner s) prev phs acc rem = (sw', evs, rem', r) ->
+  os_phases s = done ++ phs -> NoDup (delegated_names s (os_phases s)) ->
+  earlier_avail s before done ->
+  forallb (gate_check s) (C15Corr.with_prefix before evs) = true.
+Proof.
+  induction phs as [|ph rest IH]; intros sw acc rem sw' evs rem' r done before H Hsplit Hndn Hea.
+  - cbn in H. injection H as _ <- _ _. reflexivity.
+  - rewrite rpm_cons in H. destruct (ph_class ph) eqn:Ecl.
+    + destruct (remote_reconcile sw s ph rem) as [[[sw1 e1] rem1] r1] eqn:E1.
+      destruct (remote_reconcile_inv _ _ _ _ _ _ _ _ E1) as (_ & _ & _ & Hev & _).
+      assert (Hstable : forall l, only_phase_evs (pobj_name s ph) l -> earlier_avail s (before ++ l) done).
+      { intros l Hl q Hq Hcq. rewrite seen_available_untouched; [now apply Hea|].
+        apply (only_phase_untouched _ _ _ Hl). rewrite Hsplit in Hndn. intros Heq. exact (nodup_names_front _ _ _ _ _ Hndn Ecl Hq Hcq (eq_sym Heq)). }
+      assert (Hget : forall rr, only_phase_evs (pobj_name s ph) [SPhase (PGet (pobj_name s ph) rr)]) by (intros; constructor; [reflexivity|constructor]).
+      assert (Hf1 : forallb (gate_check s) (C15Corr.with_prefix before e1) = true).
+      { assert (Hw : forall rr w, hitb s ph w = true -> forallb (gate_check s) (C15Corr.with_prefix before [SPhase (PGet (pobj_name s ph) rr); w]) = true).
+        { intros rr w Hhit. cbn [C15Corr.with_prefix forallb app]. rewrite gate_check_get. cbn [andb]. rewrite andb_true_r.
+          apply (gate_check_hit s _ w done ph rest Hsplit Hhit). apply (Hstable _ (Hget rr)). }
+        destruct (remote_reconcile_trace _ _ _ _ _ _ _ _ E1) as [(st & ->)|[(cur & ->)|(cur & pd & cur' & ->)]].
+        - apply Hw. cbn. rewrite Ecl. cbn. apply N.eqb_refl.
+        - cbn [C15Corr.with_prefix forallb]. now rewrite gate_check_get.
+        - apply Hw. cbn. rewrite Ecl. cbn. apply N.eqb_refl. }
+      destruct r1 as [|active failed]; [injection H as _ <- _ _; exact Hf1|].
+      destruct failed; [injection H as _ <- _ _; exact Hf1|].
+      destruct (reconcile_phases_m force sw1 s (as_owner s) prev rest (acc ++ active) rem1) as [[[sw2 e2] rem2] r2] eqn:E2.
+      injection H as _ <- _ _. rewrite with_prefix_app, forallb_app, Hf1. cbn [andb].
+      apply (IH _ _ _ _ _ _ _ (done ++ [ph]) (before ++ e1) E2); [now rewrite <- app_assoc|exact Hndn|].
+      intros q Hq Hcq. apply in_app_or in Hq. destruct Hq as [Hq|[<-|[]]]; [now apply (Hstable _ Hev)|].
+      destruct (remote_step_ok _ _ _ _ _ _ _ _ _ E1) as (cur & Hcur & Hrel & _).
+      unfold C15Corr.seen_available. rewrite last_seen_app, (remote_reconcile_last_seen _ _ _ _ _ _ _ _ E1).
+      change (C15Corr.join s ph) with (pobj_name s ph). rewrite N.eqb_refl. unfold phase_obj_of in Hcur. rewrite Hcur.
+      apply avail_current_b. now destruct (relay_ok _ _ Hrel).
+    + destruct (reconcile_phase _ idw (sw_w sw) (as_owner s) prev false (ph_objects ph)) as [[w1 e'] r1] eqn:E1.
+      pose proof (rec_phase_events_in force _ _ _ _ _ _ _ _ E1) as Hin.
+      assert (Hstable : forall l, earlier_avail s (before ++ map SMember l) done).
+      { intros l q Hq Hcq. rewrite seen_available_untouched; [now apply Hea|apply members_untouched]. }
+      assert (Hf1 : forallb (gate_check s) (C15Corr.with_prefix before (map SMember e')) = true).
+      { apply forallb_with_prefix. intros l1 x l2 Hl. destruct (map_member_split _ _ _ _ Hl) as (y & l1' & -> & Hy & ->).
+        rewrite Forall_forall in Hin. specialize (Hin y Hy).
+        apply (gate_check_hit s _ (SMember y) done ph rest Hsplit); [|apply Hstable].
+        cbn. rewrite Ecl. cbn. now apply existsb_okey. }
+      destruct r1 as [e0|vs|actual failed]; try (injection H as _ <- _ _; exact Hf1).
+      destruct failed as [|f fs]; [|injection H as _ <- _ _; exact Hf1].
+      cbv zeta in H.
+      match type of H with context [reconcile_phases_m force ?x s ?o prev rest ?b ?d] =>
+        destruct (reconcile_phases_m force x s o prev rest b d) as [[[sw2 e2] rem2] r2] eqn:E2 end.
+      injection H as _ <- _ _. rewrite with_prefix_app, forallb_app, Hf1. cbn [andb].
+      apply (IH _ _ _ _ _ _ _ (done ++ [ph]) (before ++ map SMember e') E2); [now rewrite <- app_assoc|exact Hndn|].
+      intros q Hq Hcq. apply in_app_or in Hq. destruct Hq as [Hq|[<-|[]]]; [now apply Hstable|congruence].
+Qed.
+
+Lemma forallb_ext' {A} (f g : A -> bool) l : (forall x, f x = g x) -> forallb f l = forallb g l.
+Proof. intros H. induction l as [|a l IH]; [reflexivity|]. cbn. now rewrite H, IH. Qed.
+
+Lemma hitb_same m1 m0 ph e : os_id m1 = os_id m0 -> hitb m1 ph e = hitb m0 ph e.
+Proof.
+  intros H. unfold hitb, C15Corr.join. destruct e as [x|ms|p].
+  - f_equal. f_equal. apply map_ext. intros q. unfold spec_key, desired_key, as_owner. cbn. now rewrite H.
+  - reflexivity.
+  - destruct p; try reflexivity; now rewrite H.
+Qed.
+
+Lemma phase_idx_same m1 m0 e : os_id m1 = os_id m0 -> forall phs i, C15Corr.phase_idx m1 phs e i = C15Corr.phase_idx m0 phs e i.
+Proof.
+  intros H. induction phs as [|ph phs IH]; intros i; [reflexivity|]. rewrite !phase_idx_cons, (hitb_same _ _ _ _ H). now rewrite IH.
+Qed.
+
+Lemma gate_check_same m1 m0 pe : os_id m1 = os_id m0 -> os_phases m1 = os_phases m0 -> gate_check m1 pe = gate_check m0 pe.
+Proof.
+  intros Hid Hph. destruct pe as [b e]. unfold gate_check. rewrite Hph, (phase_idx_same _ _ _ Hid).
+  destruct (C15Corr.phase_idx m0 (os_phases m0) e 0); [|reflexivity].
+  apply forallb_ext'. intros q. unfold C15Corr.join. now rewrite Hid.
+Qed.
+
+Definition quiet (e : sev) : Prop := match e with SMeta _ => True | SPhase (PGet _ _) => True | _ => False end.
+
+Lemma quiet_gate s l : Forall quiet l -> forall p, forallb (gate_check s) (C15Corr.with_prefix p l) = true.
+Proof.
+  intros H p. apply forallb_with_prefix. intros l1 x l2 ->. apply Forall_app in H. destruct H as [_ H]. inversion H as [|? ? Hx _]; subst.
+  destruct x as [y|ms|[n r0| | | | | | ]]; try contradiction; [apply gate_check_meta|apply gate_check_get].
+Qed.
+
+Lemma keeps2_quiet mem0 l : Forall (keeps2 mem0) l -> Forall quiet l.
+Proof. intros H. eapply Forall_impl; [|exact H]. intros e He. destruct e as [x|ms|p]; try contradiction. exact I. Qed.
+Lemma gets_quiet l : Forall is_get l -> Forall quiet l.
+Proof. intros H. eapply Forall_impl; [|exact H]. intros e He. destruct e as [x|ms|[n r0| | | | | | ]]; try contradiction. exact I. Qed.
+
+Theorem m_gate_sound (c : scase) : C15Corr.m_gate (as_dobs (set_obs_s c (SetCorr.model_run c))) = true.
+Proof.
+  unfold C15Corr.m_gate. destruct (SetCorr.model_run c) as [[sw e] r] eqn:E.
+  cbn [as_dobs C15Corr.ds_step C15Corr.ds_pre_set set_obs_s sc_sets sc_kind sc_ns sc_name].
+  destruct (find_set (sc_sets c) (sc_kind c) (sc_ns c) (sc_name c)) as [m|] eqn:Ef; [|reflexivity].
+  change (C15Corr.is_activeb m) with (is_activeb m).
+  destruct (is_activeb m) eqn:Ha; [|reflexivity]. cbn [negb orb].
+  destruct (C15Corr.names_nodup m) eqn:Hn; [|reflexivity]. cbn [negb orb]. apply names_nodup_spec in Hn.
+  unfold C15Corr.evs. cbn [as_dobs C15Corr.ds_events set_obs_s sc_events].
+  change (forallb (gate_check m) (C15Corr.with_prefix [] e) = true).
+  assert (Ef' : find_set (sw_sets (sc_world c)) (sc_kind c) (sc_ns c) (sc_name c) = Some m) by exact Ef.
+  unfold SetCorr.model_run in E.
+  destruct (objectset_pass_active2 (sc_force c) (sc_world c) _ _ _ m sw e r Ef' (is_activeb_spec m Ha) E) as [Hs|Hr].
+  { destruct Hs as (_ & _ & _ & pre & reads & post & -> & Hpre & Hpost & Hreads). apply quiet_gate.
+    apply Forall_app. split; [eapply keeps2_quiet; eauto|]. apply Forall_app. split; [|eapply keeps2_quiet; eauto].
+    destruct Hreads as [->|[_ ->]]; [constructor|apply gets_quiet, paused_reads_l_gets]. }
+  destruct Hr as (mem1 & sw1 & sw2 & pevs & rem & pr & pre & Hs & _ & _ & _ & _ & _ & _ & Hrp & _ & _ & _ & Hpre & Hal).
+  pose proof Hs as (Hid & Hphs & _).
+  assert (Hloop : forallb (gate_check m) (C15Corr.with_prefix pre pevs) = true).
+  { rewrite (forallb_ext' (gate_check m) (gate_check mem1)) by (intros pe; symmetry; apply (gate_check_same mem1 m pe Hid Hphs)).
+    apply (rpm_gate_trace (sc_force c) mem1 _ _ _ _ _ _ _ _ _ [] pre Hrp eq_refl); [now rewrite (names_same _ _ Hs)|intros q []]. }
+  assert (Hgoal : forall tail, Forall quiet tail -> forallb (gate_check m) (C15Corr.with_prefix [] (pre ++ pevs ++ tail)) = true).
+  { intros tail Ht. rewrite !with_prefix_app, !forallb_app. cbn [app]. rewrite (quiet_gate m pre (keeps2_quiet _ _ Hpre)), Hloop. now apply quiet_gate. }
+  unfold after_loop2 in Hal. destruct pr as [e0| | |ctrlof failed].
+  - destruct (is_collision e0).
+    + destruct Hal as (ok & -> & _). apply Hgoal. constructor; [exact I|constructor].
+    + destruct Hal as [-> _]. rewrite <- (app_nil_r pevs). apply Hgoal. constructor.
+  - destruct Hal as [-> _]. rewrite <- (app_nil_r pevs). apply Hgoal. constructor.
+  - destruct Hal as (ok & -> & _). apply Hgoal. constructor; [exact I|constructor].
+  - destruct Hal as (ok & -> & _). apply Hgoal. apply Forall_app. split; [apply gets_quiet, paused_reads_gets|constructor; [exact I|constructor]].
+Qed.
+
+Theorem m03d_sound (c : scase) : m03d (set_obs_s c (SetCorr.model_run c)) = true.
+Proof. unfold m03d. now rewrite m_gate_sound, m_relay_sound. Qed.
